@@ -1,5 +1,6 @@
 /- Line protocol for the navigation model at `Float` (C++ side: harness/nav.cc). -/
 import CelerVerif.Model.Nav
+import CelerVerif.Model.NavBih
 import CelerVerif.Model.SurfDriver
 import CelerVerif.Num.F64
 import CelerVerif.Model.Util
@@ -222,6 +223,22 @@ def navStep (g : Geo Float) (d : DState) (ws : List String) : DState × String :
       let s' := initTrack g State.init pos ⟨0.0, 0.0, 1.0⟩
       (d, s!"loc {globalVolume g s'} fail {b01 s'.failed}")
     | none => (d, "bad-op")
+  | ["bihwf"] =>
+    -- the decidable BIH well-formedness check on every simple unit of the loaded geometry
+    let bad := (List.range g.universes.size).filterMap fun i =>
+      match g.univ i with
+      | .simple u => if bihWellFormed u then none else some s!"{i}:{bihDiagnose u}"
+      | .rect _ => none
+    (d, if bad.isEmpty then "bihwf ok" else "bihwf bad " ++ " ".intercalate bad)
+  | ["bihcand", uid, a, b, c] =>
+    match uid.toNat?, pv3 [a, b, c] with
+    | some i, some pos =>
+      if i < g.universes.size then
+        match g.univ i with
+        | .simple u => (d, "cand" ++ String.join ((bihCandidates u pos).map fun v => s!" {v}"))
+        | .rect _ => (d, "cand rect")
+      else (d, "bad-op")
+    | _, _ => (d, "bad-op")
   | _ =>
     if !d.inited then (d, "bad-op") else
     match ws with
